@@ -56,11 +56,19 @@ Model(k1, k2, d1, d2) ==
      [name |-> "d3", reqIn |-> <<>>, reqDec |-> <<"d1", "d2">>, reqBkm |-> <<"k2">>, reqSvc |-> <<>>,
         form |-> Lit([n |-> "list", items |-> <<D1, D2, Call("k2", <<D1>>)>>])],
      [name |-> "dr", reqIn |-> <<"a", "b">>, reqDec |-> <<>>, reqBkm |-> <<>>, reqSvc |-> <<>>,
-        form |-> [f |-> "rel", cols |-> <<"x", "y">>, rows |-> <<<<Lit(A), Lit(One)>>, <<Lit(Ten), Lit(B)>>>>]]>>,
+        form |-> [f |-> "rel", cols |-> <<"x", "y">>, rows |-> <<<<Lit(A), Lit(One)>>, <<Lit(Ten), Lit(B)>>>>]],
+     \* boxed invocations of required decision services (one output decision: its value; several: a context of them)
+     [name |-> "d4", reqIn |-> <<"a", "b">>, reqDec |-> <<>>, reqBkm |-> <<>>, reqSvc |-> <<"s2">>,
+        form |-> Inv("s2", <<Bd("b", Lit(A)), Bd("a", Lit(Bin("add", B, One)))>>)],
+     [name |-> "d5", reqIn |-> <<"a", "b">>, reqDec |-> <<>>, reqBkm |-> <<>>, reqSvc |-> <<"s1">>,
+        form |-> Inv("s1", <<Bd("a", Lit(B)), Bd("b", Lit(Hundred))>>)]>>,
    services |-> <<[name |-> "s1", inData |-> <<"a", "b">>, inDec |-> <<>>, enc |-> <<"d1", "d2">>, out |-> <<"d3">>],
-                  [name |-> "s2", inData |-> <<"a", "b">>, inDec |-> <<>>, enc |-> <<>>, out |-> <<"d1", "d2">>]>>,
+                  [name |-> "s2", inData |-> <<"a", "b">>, inDec |-> <<>>, enc |-> <<>>, out |-> <<"d1", "d2">>],
+                  \* several output decisions next to an encapsulated one (which is not part of the result)
+                  [name |-> "s3", inData |-> <<"a", "b">>, inDec |-> <<>>, enc |-> <<"d1">>, out |-> <<"d2", "dr">>]>>,
    invocables |-> <<<<"decision", "d1">>, <<"decision", "d2">>, <<"decision", "d3">>, <<"decision", "dr">>,
-                    <<"bkm", "k1">>, <<"bkm", "k2">>, <<"service", "s1">>, <<"service", "s2">>>>]
+                    <<"bkm", "k1">>, <<"bkm", "k2">>, <<"service", "s1">>, <<"service", "s2">>,
+                    <<"decision", "d4">>, <<"decision", "d5">>, <<"service", "s3">>>>]
 
 V(m) == [k |-> "num", m |-> m, e |-> 0]
 Inputs == << [k |-> "ctx", ents |-> <<[n |-> "a", v |-> V(2)], [n |-> "b", v |-> V(3)]>>],
